@@ -41,12 +41,23 @@ type Clause struct {
 	expr   ast.Expr
 	info   *types.Info
 	oldSet map[ast.Expr]bool
+	loopVars []string
+	usesGhost bool
 	done   bool
 	err    error
 }
 
 // assumedPure: value names (as produced by valueName) of callbacks assumed to have no effect.
 var assumedPure = map[string]string{}
+
+func isAssumedPure(name string) bool {
+	for k := range assumedPure {
+		if name == k || strings.HasSuffix(name, "."+k) {
+			return true
+		}
+	}
+	return false
+}
 
 var kwRe = regexp.MustCompile(`^(func|requires|ensures|loop|watch|lemma|trusted|noinline|inline|define|assume-pure|end)\b`)
 
@@ -532,6 +543,7 @@ func (P *Program) ghostScope(parent *types.Scope, pkg *types.Package, pos token.
 	predU16 := types.NewSignatureType(nil, nil, nil, types.NewTuple(types.NewVar(0, nil, "k", types.Typ[types.Uint16])), types.NewTuple(types.NewVar(0, nil, "", boolT)), false)
 	predU32 := types.NewSignatureType(nil, nil, nil, types.NewTuple(types.NewVar(0, nil, "k", types.Typ[types.Uint32])), types.NewTuple(types.NewVar(0, nil, "", boolT)), false)
 	predU64 := types.NewSignatureType(nil, nil, nil, types.NewTuple(types.NewVar(0, nil, "k", u64T)), types.NewTuple(types.NewVar(0, nil, "", boolT)), false)
+	mk("forallKey", boolT, anyT, anyT)
 	mk("forallU16", boolT, predU16)
 	mk("forallU32", boolT, predU32)
 	mk("forallU64", boolT, predU64)
@@ -584,7 +596,10 @@ func (P *Program) prepare(cl *Clause, fn *ssa.Function, pos token.Pos) error {
 		cl.err = fmt.Errorf("clause %q: no scope at position", cl.Name)
 		return cl.err
 	}
-	P.ghostScope(inner, pkg, pos, fn)
+	gs := P.ghostScope(inner, pkg, pos, fn)
+	for _, lv := range cl.loopVars {
+		gs.Insert(types.NewVar(token.NoPos, pkg, lv, types.Typ[types.Int]))
+	}
 	info := &types.Info{Types: map[ast.Expr]types.TypeAndValue{}, Uses: map[*ast.Ident]types.Object{}, Defs: map[*ast.Ident]types.Object{}, Selections: map[*ast.SelectorExpr]*types.Selection{}}
 	if err := types.CheckExpr(P.fset, pkg, pos, e, info); err != nil {
 		cl.err = fmt.Errorf("clause %q: %v", cl.Name, err)
@@ -596,6 +611,22 @@ func (P *Program) prepare(cl *Clause, fn *ssa.Function, pos token.Pos) error {
 	}
 	cl.expr = e
 	cl.info = info
+	ast.Inspect(e, func(n ast.Node) bool {
+		switch x := n.(type) {
+		case *ast.CallExpr:
+			if id, ok := x.Fun.(*ast.Ident); ok {
+				switch id.Name {
+				case "called", "ncalls", "calledBefore", "retBool", "retErr", "retBytes", "retInt", "retU64", "retAny", "argBool", "argErr", "argBytes", "argInt", "argU64", "argAny":
+					cl.usesGhost = true
+				}
+			}
+		case *ast.ParenExpr:
+			if _, ok := ghostAs[x]; ok {
+				cl.usesGhost = true
+			}
+		}
+		return true
+	})
 	return nil
 }
 
@@ -619,8 +650,14 @@ func rewriteOld(e ast.Expr, set map[ast.Expr]bool) ast.Expr {
 				if ghostAs == nil {
 					ghostAs = map[ast.Expr][3]string{}
 				}
-				name, _ := strconv.Unquote(x.Args[0].(*ast.BasicLit).Value)
-				ghostAs[p] = [3]string{id.Name[:3], name, x.Args[1].(*ast.BasicLit).Value}
+				a0, a1 := unparen(x.Args[0]), unparen(x.Args[1])
+				l0, ok0 := a0.(*ast.BasicLit)
+				l1, ok1 := a1.(*ast.BasicLit)
+				if !ok0 || !ok1 {
+					return n
+				}
+				name, _ := strconv.Unquote(l0.Value)
+				ghostAs[p] = [3]string{id.Name[:3], name, l1.Value}
 				return p
 			}
 			x.Fun = rw(x.Fun)
@@ -746,6 +783,16 @@ func (e *specEnv) constOf(x ast.Expr) (Term, bool) {
 
 // eval translates a specification expression.
 func (e *specEnv) eval(x ast.Expr) Term {
+	if p, ok := x.(*ast.ParenExpr); ok {
+		if _, isGhost := ghostAs[p]; isGhost {
+			g := ghostAs[p]
+			w := g[1]
+			if !e.f.vc.watch[w] {
+				unsup("spec: %q is used in a clause but not declared with 'watch'", w)
+			}
+			return e.now.get(fmt.Sprintf("G$%s$%s$%s", g[0], w, g[2]), e.tt().sortOf(e.typeOf(p.X)))
+		}
+	}
 	if t, ok := e.constOf(x); ok {
 		return t
 	}
@@ -855,6 +902,10 @@ func (e *specEnv) ident(n *ast.Ident) Term {
 			}
 		}
 	}
+	if v, ok := obj.(*types.Var); ok && v.Pkg() != nil && v.Parent() != v.Pkg().Scope() {
+		// a local that has no value on this path: an arbitrary value of its type
+		return e.f.vc.declare("undef$"+n.Name, e.tt().sortOf(v.Type()))
+	}
 	unsup("spec: cannot resolve %s", n.Name)
 	return Term{}
 }
@@ -879,6 +930,28 @@ func (e *specEnv) lookupLocal(v *types.Var) (Term, bool) {
 	}
 	if i, ok := e.resNames[v.Name()]; ok && e.results != nil {
 		return e.results[i], true
+	}
+	// range loops: idx (and the key variable) denote the number of elements already processed
+	if e.loopHdr != nil {
+		if rp := rangePhi(e.loopHdr); rp != nil {
+			isKey := v.Name() == "idx" && v.Pkg() != nil && v.Parent() != nil && v.Parent().Lookup("idx") == v && !v.Pos().IsValid()
+			if !isKey {
+				for _, b := range fn.Blocks {
+					for _, in := range b.Instrs {
+						if dr, ok := in.(*ssa.DebugRef); ok && dr.Object() == v {
+							if bo, ok := dr.X.(*ssa.BinOp); ok && bo.Block() == e.loopHdr && bo.X == ssa.Value(rp) {
+								isKey = true
+							}
+						}
+					}
+				}
+			}
+			if isKey {
+				if t, ok := fr.vals[rp]; ok {
+					return bvAdd(t, i64(1)), true
+				}
+			}
+		}
 	}
 	// loop header phi with that name
 	if e.loopHdr != nil {
@@ -1233,6 +1306,16 @@ func (e *specEnv) binary(n *ast.BinaryExpr) Term {
 	return Term{}
 }
 
+func unparen(x ast.Expr) ast.Expr {
+	for {
+		p, ok := x.(*ast.ParenExpr)
+		if !ok {
+			return x
+		}
+		x = p.X
+	}
+}
+
 func isNilIdent(x ast.Expr) bool {
 	for {
 		p, ok := x.(*ast.ParenExpr)
@@ -1251,6 +1334,7 @@ func isUntyped(t types.Type) bool {
 }
 
 func (e *specEnv) strArg(x ast.Expr) string {
+	x = unparen(x)
 	tv := e.info.Types[x]
 	if tv.Value == nil || tv.Value.Kind() != constant.String {
 		unsup("spec: ghost function needs a string literal")
@@ -1259,6 +1343,7 @@ func (e *specEnv) strArg(x ast.Expr) string {
 }
 
 func (e *specEnv) intArg(x ast.Expr) int {
+	x = unparen(x)
 	tv := e.info.Types[x]
 	if tv.Value == nil {
 		unsup("spec: ghost function needs a constant index")
@@ -1332,7 +1417,9 @@ func (e *specEnv) call(n *ast.CallExpr) Term {
 			vc.names["q"]++
 			bv := Term{fmt.Sprintf("q!%s%d", pid.Name, vc.names["q"]), SBV64}
 			e.vars[obj] = bv
+			vc.binderDepth++
 			body := e.eval(ret.Results[0])
+			vc.binderDepth--
 			delete(e.vars, obj)
 			vc.hasQuant = true
 			rng := mkAnd(sle(lo, bv), slt(bv, hi))
@@ -1341,13 +1428,13 @@ func (e *specEnv) call(n *ast.CallExpr) Term {
 			}
 			return Term{fmt.Sprintf("(exists ((%s (_ BitVec 64))) %s)", bv.S, mkAnd(rng, body).S), SBool}
 		case "called":
-			return e.st().get("G$called$"+e.watchName(n.Args[0]), SBool)
+			return e.now.get("G$called$"+e.watchName(n.Args[0]), SBool)
 		case "ncalls":
-			return e.st().get("G$ncalls$"+e.watchName(n.Args[0]), SBV64)
+			return e.now.get("G$ncalls$"+e.watchName(n.Args[0]), SBV64)
 		case "calledBefore":
 			a, b := e.watchName(n.Args[0]), e.watchName(n.Args[1])
-			return mkAnd(e.st().get("G$called$"+a, SBool), e.st().get("G$called$"+b, SBool),
-				ult(e.st().get("G$seq$"+a, SBV64), e.st().get("G$seq$"+b, SBV64)))
+			return mkAnd(e.now.get("G$called$"+a, SBool), e.now.get("G$called$"+b, SBool),
+				ult(e.now.get("G$seq$"+a, SBV64), e.now.get("G$seq$"+b, SBV64)))
 		case "held":
 			return e.st().get("G$held$"+e.strArg(n.Args[0]), SBool)
 		case "retBool", "retErr", "retBytes", "retInt", "retU64", "retAny", "argBool", "argErr", "argBytes", "argInt", "argU64", "argAny":
@@ -1357,7 +1444,7 @@ func (e *specEnv) call(n *ast.CallExpr) Term {
 			}
 			w := e.watchName(n.Args[0])
 			k := e.intArg(n.Args[1])
-			return e.st().get(fmt.Sprintf("G$%s$%s$%d", kind, w, k), tt.sortOf(e.typeOf(n)))
+			return e.now.get(fmt.Sprintf("G$%s$%s$%d", kind, w, k), tt.sortOf(e.typeOf(n)))
 		case "bytesEq":
 			a, b := e.eval(n.Args[0]), e.eval(n.Args[1])
 			ia, ib := e.f.byteInner(e.st(), a), e.f.byteInner(e.st(), b)
@@ -1401,6 +1488,43 @@ func (e *specEnv) call(n *ast.CallExpr) Term {
 				}
 			}
 			return mkAnd(mkNot(mkEq(m, i64(0))), mkSelect(dom, k, SBool))
+		case "forallKey":
+			mt, ok := e.typeOf(n.Args[0]).Underlying().(*types.Map)
+			fl, ok2 := n.Args[1].(*ast.FuncLit)
+			if !ok || !ok2 || len(fl.Body.List) != 1 {
+				unsup("spec: forallKey(m, func(k K) bool { return ... })")
+			}
+			ret, ok := fl.Body.List[0].(*ast.ReturnStmt)
+			if !ok {
+				unsup("spec: quantifier body must be a return")
+			}
+			pid := fl.Type.Params.List[0].Names[0]
+			obj := e.info.Defs[pid]
+			ks := tt.sortOf(mt.Key())
+			vc.names["q"]++
+			bv := Term{fmt.Sprintf("q!%s%d", pid.Name, vc.names["q"]), ks}
+			e.vars[obj] = bv
+			vc.binderDepth++
+			m := e.eval(n.Args[0])
+			saved := e.f.st
+			e.f.st = e.st()
+			dn, _, _, ds, _, _, _, _ := e.f.mapHeaps(mt)
+			dom := mkSelect(e.f.st.get(dn, ds), m, arraySort(ks, SBool))
+			e.f.st = saved
+			in := mkAnd(mkNot(mkEq(m, i64(0))), mkSelect(dom, bv, SBool))
+			if hasRefs(mt.Elem()) {
+				// every stored value was allocated before the last write to the map's value heap
+				e.f.st = e.st()
+				_, vn, _, _, vs, _, _, es := e.f.mapHeaps(mt)
+				val := mkSelect(mkSelect(e.f.st.get(vn, vs), m, arraySort(ks, es)), bv, es)
+				in = mkAnd(in, tt.typeInv(val, mt.Elem(), e.f.st.get("A$"+vn, SBV64)))
+				e.f.st = saved
+			}
+			body := e.eval(ret.Results[0])
+			vc.binderDepth--
+			delete(e.vars, obj)
+			vc.hasQuant = true
+			return Term{fmt.Sprintf("(forall ((%s %s)) %s)", bv.S, ks, mkImplies(in, body).S), SBool}
 		case "forallU16", "forallU32", "forallU64":
 			fl, ok := n.Args[0].(*ast.FuncLit)
 			if !ok || len(fl.Body.List) != 1 {
@@ -1416,10 +1540,28 @@ func (e *specEnv) call(n *ast.CallExpr) Term {
 			vc.names["q"]++
 			bv := Term{fmt.Sprintf("q!%s%d", pid.Name, vc.names["q"]), bvSort(w)}
 			e.vars[obj] = bv
+			vc.binderDepth++
 			body := e.eval(ret.Results[0])
+			vc.binderDepth--
 			delete(e.vars, obj)
 			vc.hasQuant = true
 			return Term{fmt.Sprintf("(forall ((%s %s)) %s)", bv.S, bvSort(w), body.S), SBool}
+		case "allocated":
+			v := e.eval(n.Args[0])
+			if v.Sort == SSlice {
+				v = slObj(v)
+			} else if v.Sort == SIface {
+				v = ifVal(v)
+			}
+			return mkAnd(mkNot(mkEq(v, i64(0))), ult(v, e.st().get("$alloc", SBV64)))
+		case "fresh":
+			v := e.eval(n.Args[0])
+			if v.Sort == SSlice {
+				v = slObj(v)
+			} else if v.Sort == SIface {
+				v = ifVal(v)
+			}
+			return mkAnd(mkNot(mkEq(v, i64(0))), ule(e.old.get("$alloc", SBV64), v))
 		case "nonNilPayload":
 			return mkNot(mkEq(ifVal(e.eval(n.Args[0])), i64(0)))
 		case "typeIs":
@@ -1432,8 +1574,90 @@ func (e *specEnv) call(n *ast.CallExpr) Term {
 			return mkEq(ifTyp(v), i64(int64(id)))
 		}
 	}
+	// calls of in-repo functions and methods: evaluated on the clause's state, effects discarded
+	var fobj *types.Func
+	var recvExpr ast.Expr
+	switch fx := n.Fun.(type) {
+	case *ast.Ident:
+		fobj, _ = e.info.Uses[fx].(*types.Func)
+	case *ast.SelectorExpr:
+		if sel := e.info.Selections[fx]; sel != nil && sel.Kind() == types.MethodVal {
+			fobj, _ = sel.Obj().(*types.Func)
+			recvExpr = fx.X
+		} else {
+			fobj, _ = e.info.Uses[fx.Sel].(*types.Func)
+		}
+	}
+	if fobj != nil {
+		if rs, ok := e.pureCall(fobj, recvExpr, n); ok {
+			if len(rs) != 1 {
+				unsup("spec: call %s must have exactly one result", exprString(n))
+			}
+			return rs[0]
+		}
+	}
 	unsup("spec: call %s", exprString(n))
 	return Term{}
+}
+
+// pureCall evaluates a call of an in-repo function inside a clause by translating its body on a
+// copy of the clause's state; its effects and its own safety obligations are discarded.
+func (e *specEnv) pureCall(fobj *types.Func, recvExpr ast.Expr, n *ast.CallExpr) ([]Term, bool) {
+	vc := e.f.vc
+	if vc.binderDepth > 0 {
+		unsup("spec: function call %s under a quantifier", fobj.Name())
+	}
+	sig := fobj.Type().(*types.Signature)
+	var args []Term
+	if recvExpr != nil {
+		rt := e.typeOf(recvExpr)
+		want := sig.Recv().Type()
+		_, wantPtr := want.Underlying().(*types.Pointer)
+		_, havePtr := rt.Underlying().(*types.Pointer)
+		switch {
+		case types.IsInterface(want):
+			// interface method: observer declared pure?
+			if isAssumedPure(normName(fobj.FullName())) {
+				return []Term{e.f.observer(fobj, e.eval(recvExpr))}, true
+			}
+			return nil, false
+		case wantPtr == havePtr:
+			args = append(args, e.eval(recvExpr))
+		case wantPtr && !havePtr:
+			b, _ := e.fieldBase(recvExpr)
+			if !b.valid() {
+				return nil, false
+			}
+			args = append(args, b)
+		default: // value receiver, pointer expression
+			args = append(args, e.loadAt(e.eval(recvExpr), want, nil))
+		}
+	}
+	for _, a := range n.Args {
+		args = append(args, e.eval(a))
+	}
+	fn := vc.P.prog.FuncValue(fobj)
+	if fn == nil || fn.Blocks == nil || !(vc.P.inRepo(fn) || inlineLib(fn)) {
+		return nil, false
+	}
+	f := e.f
+	savedSt, savedReach, nObl := f.st, vc.reach, len(vc.obligs)
+	nItems := len(vc.items)
+	f.st = e.st().seq()
+	vc.specCalls++
+	rs := f.inlineTerms(fn, args, n.Pos())
+	vc.specCalls--
+	// drop the obligations (and their assume-items) generated inside the callee
+	for _, o := range vc.obligs[nObl:] {
+		for i := nItems; i < len(vc.items); i++ {
+			if vc.items[i].ob == o {
+				vc.items[i] = Item{kind: itDecl, text: "; (dropped obligation of a specification call)"}
+			}
+		}
+	}
+	vc.obligs = vc.obligs[:nObl]
+	f.st, vc.reach = savedSt, savedReach
+	return rs, true
 }
 
 func (e *specEnv) watchName(x ast.Expr) string {
